@@ -451,8 +451,16 @@ type DrvRes struct {
 
 // RunDrv executes requests in one driver process under a watchdog and a memory limit.
 func (n *Native) RunDrv(reqs []DrvReq, timeout time.Duration) ([]DrvRes, error) {
+	return n.RunDrvEnv(reqs, timeout, nil)
+}
+
+// RunDrvEnv runs the driver with a replaced environment (nil: the environment of the check).
+func (n *Native) RunDrvEnv(reqs []DrvReq, timeout time.Duration, env []string) ([]DrvRes, error) {
 	in, _ := json.Marshal(reqs)
-	cmd := exec.Command("bash", "-c", fmt.Sprintf("ulimit -v 4000000; exec timeout %d %s", int(timeout.Seconds()), n.Drv))
+	cmd := exec.Command("/bin/bash", "-c", fmt.Sprintf("ulimit -v 4000000; exec /usr/bin/timeout %d %s", int(timeout.Seconds()), n.Drv))
+	if env != nil {
+		cmd.Env = env
+	}
 	cmd.Stdin = bytes.NewReader(in)
 	var out, errb bytes.Buffer
 	cmd.Stdout = &out
